@@ -233,7 +233,7 @@ theorem datetime_gap_value_ordered {z : Zone} (hz : ZoneOrdered z) (hend : EndsB
 
 /-- **the full clause — "the first valid instant after it"** — for every whole-second `n` in a
 whole-second `ZoneOrdered` table, in particular when clocks are set back right after the gap
-(Europe/Lisbon 1992, Europe/Moscow 1919, …: the first valid time is then ambiguous and the FIRST of
+(Europe/Lisbon 1992: the first valid time is then ambiguous and the FIRST of
 its two instants is returned).  False before /repo e1e5204 (`latest()`: one hour late). -/
 theorem datetime_gap_first_valid_ordered {z : Zone} (hz : ZoneOrdered z) (hsec : WholeSeconds z)
     (hend : EndsBefore z instMax) {n : Int} (hmin : instMin ≤ n) (hn : ¬ Valid z n)
